@@ -299,6 +299,51 @@ mod imp {
             _ => panic!("no uset"),
         })
     }
+
+    /// the collectors on element types other than Option<f64> (seed round 10): items are the small integers
+    /// `vals` (None = a missing item, only for the optional collector); every result is rendered as text
+    pub const TYPED: [&str; 10] = ["i32", "i64", "usize", "u64", "u8", "bool", "f32", "f64", "String", "Option<i64>"];
+    pub fn collect_typed(ty: usize, cont: usize, how: &str, vals: &[Option<i64>]) -> Outcome<Vec<String>> {
+        let how = how.to_string();
+        macro_rules! cont {
+            ($T:ty, $conv:expr, $show:expr) => {{
+                let conv = $conv;
+                let show = $show;
+                let present: Vec<$T> = vals.iter().map(|v| conv(v.unwrap_or(0))).collect();
+                let opt: Vec<Option<$T>> = vals.iter().map(|v| v.map(|x| conv(x))).collect();
+                let n = vals.len();
+                macro_rules! go {
+                    ($O:ty) => {{
+                        let o: $O = match how.as_str() {
+                            "collect_vec1" => present.clone().into_iter().collect_vec1::<$O>(),
+                            "collect_trusted_vec1" => present.clone().into_iter().collect_trusted_vec1::<$O>(),
+                            "collect_vec1_with_len" => present.clone().into_iter().filter(|_| true).collect_vec1_with_len::<$O>(n),
+                            "collect_vec1_opt" => opt.clone().into_iter().collect_vec1_opt::<$O>(),
+                            _ => panic!("unknown collector"),
+                        };
+                        o.titer().map(|v| show(v)).collect::<Vec<String>>()
+                    }};
+                }
+                match cont {
+                    0 => go!(Vec<$T>),
+                    1 => go!(VecDeque<$T>),
+                    _ => go!(Array1<$T>),
+                }
+            }};
+        }
+        catch(|| match ty {
+            0 => cont!(i32, |x: i64| x as i32, |v: i32| v.to_string()),
+            1 => cont!(i64, |x: i64| x - 4_000_000_000_000, |v: i64| (v + 4_000_000_000_000).to_string()),
+            2 => cont!(usize, |x: i64| x as usize, |v: usize| v.to_string()),
+            3 => cont!(u64, |x: i64| x as u64, |v: u64| v.to_string()),
+            4 => cont!(u8, |x: i64| x as u8, |v: u8| v.to_string()),
+            5 => cont!(bool, |x: i64| x % 2 == 1, |v: bool| ((v as i64)).to_string()),
+            6 => cont!(f32, |x: i64| x as f32 + 0.5, |v: f32| if v.is_nan() { "null".to_string() } else { ((v - 0.5) as i64).to_string() }),
+            7 => cont!(f64, |x: i64| x as f64 + 0.25, |v: f64| if v.is_nan() { "null".to_string() } else { ((v - 0.25) as i64).to_string() }),
+            8 => cont!(String, |x: i64| format!("s{x}"), |v: String| if v == "None" { "null".to_string() } else { v[1..].to_string() }),
+            _ => cont!(Option<i64>, |x: i64| Some(x), |v: Option<i64>| v.map_or("null".to_string(), |x| x.to_string())),
+        })
+    }
 }
 use imp::*;
 
@@ -662,6 +707,46 @@ fn check_large(ctx: &mut Ctx) {
     }
 }
 
+/// every collector on every element type: the optional collector needs the element type's null only for a
+/// missing item (integer / bool targets have none, and must still take a list of present items)
+fn check_collectors_typed(ctx: &mut Ctx, max_len: usize) {
+    let fam = "collectors-typed";
+    for (ty, tname) in TYPED.iter().enumerate() {
+        let nullable = ty >= 6;
+        for len in 0..=max_len {
+            let mut lists: Vec<Vec<Option<i64>>> = vec![(0..len as i64).map(|i| Some(3 + 2 * i)).collect()];
+            if nullable && len > 0 {
+                lists.push((0..len as i64).map(|i| if i % 2 == 0 { None } else { Some(3 + 2 * i) }).collect());
+                lists.push((0..len as i64).map(|i| if i + 1 == len as i64 { None } else { Some(3 + 2 * i) }).collect());
+            }
+            for list in lists {
+                ctx.states += 1;
+                ctx.fam(fam).states += 1;
+                ctx.nontrivial(fam, hash_bytes(format!("{tname}{list:?}").as_bytes()));
+                let has_null = list.iter().any(|v| v.is_none());
+                // bool keeps the parity only
+                let want: Vec<String> = list.iter().map(|v| v.map_or("null".to_string(), |x| if ty == 5 { (x % 2).to_string() } else { x.to_string() })).collect();
+                for cont in 0..3usize {
+                    for how in ["collect_vec1", "collect_trusted_vec1", "collect_vec1_with_len", "collect_vec1_opt"] {
+                        if has_null && how != "collect_vec1_opt" {
+                            continue;
+                        }
+                        ctx.transitions += 1;
+                        let cname = ["Vec", "VecDeque", "Array1"][cont];
+                        let got = collect_typed(ty, cont, how, &list);
+                        ctx.eval(fam, hash_bytes(format!("{got:?}").as_bytes()));
+                        if !matches!(&got, Outcome::Ok(g) if *g == want) {
+                            viol(ctx, &format!("{how} (typed)"), None, json!({"family": fam, "elem": tname, "container": cname, "list": list}), format!("{want:?}"), truncate(&format!("{got:?}"), 200));
+                        } else {
+                            ctx.traces += 1;
+                        }
+                    }
+                }
+            }
+        }
+    }
+}
+
 fn check_collectors(ctx: &mut Ctx, max_len: usize) {
     let fam = "collectors";
     for len in 0..=max_len {
@@ -887,6 +972,9 @@ fn main() {
     }
     if only.as_deref().map_or(true, |f| f == "collectors") {
         check_collectors(&mut ctx, max_len);
+    }
+    if only.as_deref().map_or(true, |f| f == "collectors-typed") {
+        check_collectors_typed(&mut ctx, max_len);
     }
     if only.as_deref().map_or(true, |f| f == "write_trust_iter") {
         check_write(&mut ctx, max_len);
